@@ -1,6 +1,6 @@
 #!/bin/bash
 # usage: seedtest.sh <seed dir> <check ids...>   applies the patch to /repo, runs the checks, undoes it
-d=$1; shift
+d=$(cd "$1" && pwd); shift
 cd /repo && git status --porcelain --untracked-files=no | grep -q . && { echo "repo dirty"; exit 3; }
 git -C /repo apply "$d/patch.diff" || { echo "patch does not apply"; exit 3; }
 for c in "$@"; do
